@@ -26,8 +26,8 @@ RES=""
 for ID in $IDS; do
     ( unset CARGO_TARGET_DIR; cd "$LAB/verif" && VERIF_NO_REGRESS=${VERIF_NO_REGRESS-1} ./bin/check "$ID" "$TIER" >"$LAB/check-$NAME-$ID.log" 2>&1 )
     RC=$?
-    FIRST=$(grep -m1 "^  stage" "$LAB/check-$NAME-$ID.log" | cut -c1-260 | python3 -c 'import sys,json; print(json.dumps(sys.stdin.read().strip()))')
+    FIRST=$(grep -m1 "^  stage" "$LAB/check-$NAME-$ID.log" | python3 -c 'import sys,json; print(json.dumps(sys.stdin.read().strip()[:300]))')
     RES="$RES\"$ID\":{\"rc\":$RC,\"first\":${FIRST:-\"\"}},"
 done
 git checkout -q -- .
-echo "{\"name\":\"$NAME\",\"suite\":\"$SUITE\",\"demo_clean\":\"$DEMO_CLEAN\",\"demo_mutant\":\"$DEMO_MUT\",\"tier\":\"$TIER\",\"results\":{${RES%,}}}"
+printf "%s\n" "{\"name\":\"$NAME\",\"suite\":\"$SUITE\",\"demo_clean\":\"$DEMO_CLEAN\",\"demo_mutant\":\"$DEMO_MUT\",\"tier\":\"$TIER\",\"results\":{${RES%,}}}"
